@@ -528,8 +528,16 @@ pub fn run_c12(ctx: &mut Ctx) {
         let mc = 1 + rng.usize_below(50);
         let b = *rng.pick(&[128usize, 1024]);
         let nl = *rng.pick(&[0u64, 1, 2, 4, 6]);
-        let plans: Vec<ReqPlan> = (0..k).map(|_| { let mut p = gen_req(&mut rng, true, nl, mc, b, false); if rng.chance(1, 3) && p.script != "-" && !p.script.starts_with('~') && !p.opens { p.script = format!("~{}", p.script); } p }).collect();
-        let wire: Vec<u8> = plans.iter().flat_map(|p| ser_all(&p.recs)).collect();
+        // every fault run repeats the whole wire: a connection whose wire runs to tens of KB (a rare maximal noise record) would
+        // multiply into hundreds of MB of operations — regenerate until it is of moderate size (the large sizes belong to C03/C05/C07)
+        let max_wire = if thorough { 12_000 } else { 3_000 };
+        let mut plans: Vec<ReqPlan>; let mut wire: Vec<u8>; let mut tries = 0;
+        loop {
+            plans = (0..k).map(|_| { let mut p = gen_req(&mut rng, true, nl, mc, b, false); if rng.chance(1, 3) && p.script != "-" && !p.script.starts_with('~') && !p.opens { p.script = format!("~{}", p.script); } p }).collect();
+            wire = plans.iter().flat_map(|p| ser_all(&p.recs)).collect();
+            tries += 1;
+            if wire.len() <= max_wire || tries >= 20 { break; }
+        }
         let hs: String = plans.iter().map(|p| p.script.clone()).collect::<Vec<_>>().join(";");
         let rd = rd_script(&mut rng, 30); let wr = wr_script(&mut rng, 30, false);
         // fault-free baseline: number of read / write calls
